@@ -8,7 +8,10 @@
           the side of the wrapped rule in every reachable state
   C16.R3  builder guards dominate the state writes; the duplicate-module check compares the whole normalised argument against the
           materialised identifiers of all stored modules (whatever key is compared - names, key tuples, filter objects - must be equal,
-          under abstract dataclass / __eq__ equality, for a stored filter of *every* stored class with the supplied name); the 'pending' test agrees with the stored values; architecture guards
+          under abstract dataclass / __eq__ equality, for a stored filter of *every* stored class with the supplied name); a running
+          collection consulted instead of the stored definitions must provably hold the identifier of every stored filter (class Mirror:
+          every write of the layer mapping is accompanied by additions that cover the identifiers of what is written, nothing is removed);
+          the 'pending' test agrees with the stored values; architecture guards
   C16.R4  accepted definitions are stored faithfully (whole list, in order, under the single pending layer) and read back unchanged
 
 All anchors are public API names (`LayeredArchitecture.layer/containing_modules/have_modules_with_names_matching/__getitem__/__str__`,
@@ -23,7 +26,7 @@ from core.guards import f_and, f_not, f_or
 from core.loader import AnalysisError, ClassInfo, FuncInfo, Repo
 from core.report import Result
 
-from .c16_logic import Enc, equivalent, facts, implies, mentions, satisfiable, strip_wrappers
+from .c16_logic import Enc, equivalent, facts, implies, mentions, prefix_length, satisfiable, strip_wrappers
 from .c16_r1 import RawFlow, seeds
 from .c16_sym import NONE_T, SELF, Event, Run, SymExec, Term, is_term, phi_leaves, show, show_pc, subterms
 from .common import types_of
@@ -83,6 +86,7 @@ class Builder:
         self.store: Term | None = None
         self.name_attrs: set[str] = set()
         self.cursor = Cursor(self)
+        self.mirror = Mirror(self)
 
     def run(self, name: str) -> Run:
         if name not in self.runs:
@@ -196,19 +200,29 @@ class Builder:
                         seen.append(x)
         return seen
 
+    def pending_part(self, t: Term) -> bool:
+        """t is a pending collection P or a non-empty prefix of one (`islice(P, n)`, n >= 1): whatever is picked from it is a pending
+        layer, *the* pending layer when exactly one is pending (judged separately by [exactly one pending layer])."""
+        t = strip_wrappers(t)
+        n = prefix_length(t)
+        while n is not None and n >= 1:
+            t = strip_wrappers(t[2][0])
+            n = prefix_length(t)
+        return n is None and self.pending(t) is not None
+
     def single_pending(self, key: Term) -> bool:
         """key is `P[0]` / `P[-1]` / the only element unpacked from P / `P.pop()` / `next(iter(P))` for a pending collection P."""
-        if key[0] == "index" and key[2] in (("const", 0), ("const", -1)) and self.pending(key[1]) is not None:
+        if key[0] == "index" and key[2] in (("const", 0), ("const", -1)) and self.pending_part(key[1]):
             return True
-        if key[0] == "unpack" and key[3] == 1 and self.pending(key[1]) is not None:
+        if key[0] == "unpack" and key[3] == 1 and self.pending_part(key[1]):
             return True
-        if key[0] == "mcall" and key[2] == "pop" and self.pending(key[1]) is not None:
+        if key[0] == "mcall" and key[2] == "pop" and self.pending_part(key[1]):
             return True
         if key[0] == "call" and key[1] in ("next", "min", "max") and key[2]:
             inner = key[2][0]
             if inner[0] == "call" and inner[1] == "iter" and inner[2]:
                 inner = inner[2][0]
-            return self.pending(inner) is not None
+            return self.pending_part(inner)
         return False
 
     # -- attributes of a name filter that return the name it was built from (`identifier`, `name`)
@@ -233,7 +247,14 @@ class Builder:
         if core[0] == "call" and core[1] in ("map", "filter", "iter"):
             materialised = False
         if not mentions(core, self.store):
-            return None
+            a = self.mirror.candidate(strip_wrappers(core, ("list", "tuple", "sorted", "set", "frozenset")))
+            if a is None:
+                return None
+            status, why, _where = self.mirror.prove(a)
+            if status == "holds":
+                fbv = ("bv", 0)
+                return ("all", True, ("attr", fbv, self.identifier_attr()), fbv)
+            return ("partial" if status == "broken" else "unknown", f"the running collection `self.{a}` need not hold the identifiers of all stored modules: {why}")
         if core[0] != "comp" or core[1] == "dict":
             return ("partial", f"`{show(core)[:80]}` is not the collection of the identifiers of all stored modules")
         if core[1] == "gen" and core is t:
@@ -370,12 +391,17 @@ class Builder:
                         out.append(x[1])
         return out
 
+    def identifier_attr(self) -> str:
+        """The attribute every stored filter answers with its name (declared by the abstract filter class when there is one)."""
+        ident = sorted(a for a in self.name_attrs if any(a in c.methods and c.methods[a].is_abstract for c in self.repo.classes.values())) or sorted(self.name_attrs)
+        return ident[0]
+
     def filter_named(self, cls_fq: str) -> Term | None:
         """A stored filter of class cls_fq whose identifier is the symbolic name M."""
         ci = self.repo.classes.get(cls_fq)
         if ci is None:
             return None
-        ident = sorted(a for a in self.name_attrs if any(a in c.methods and c.methods[a].is_abstract for c in self.repo.classes.values())) or sorted(self.name_attrs)
+        ident = [self.identifier_attr()]
         fields = [n for c in reversed(self.repo.mro(ci)) for n in c.ann_attrs]
         for f in fields:
             obj = ("new", cls_fq, (), tuple(sorted((g, self.M if g == f else ("sym", g)) for g in fields)))
@@ -564,6 +590,178 @@ class Cursor:
 
 
 
+class Mirror:
+    """An attribute A of the builder that is consulted *instead of* the stored definitions by the duplicate check (a running set of
+    the names that are already assigned).
+
+    Proves the invariant I(A): *A holds the identifier of every stored module filter* by induction over the public methods: the
+    constructor leaves the mapping empty; every write of a definition V into the layer mapping is accompanied (on every path that
+    returns normally, and with nothing that can raise in between when the write comes first) by additions to A that cover the
+    identifiers of V - `A.update(L)` / `A |= set(L)` / `A.extend(L)` for a definition built per element of L, `A.add(x)` for a
+    single filter built from x; nothing is ever removed from A and A is never replaced.
+
+    prove(a) -> ('holds' | 'broken' | 'unknown', why, where): 'broken' needs positive evidence (a write without an addition, the raw
+    `str | list` argument added instead of its list form, a removal / reset)."""
+
+    ADD_ALL = {"update", "extend"}
+    ADD_ONE = {"add", "append"}
+    REMOVERS = {"remove", "discard", "pop", "clear", "difference_update", "intersection_update", "symmetric_difference_update", "popitem", "__delitem__"}
+    WRAPPERS = ("list", "tuple", "sorted", "set", "frozenset", "iter")
+
+    def __init__(self, b: Builder) -> None:
+        self.b = b
+        self.cache: dict[str, tuple[str, str, str]] = {}
+
+    def methods(self) -> list[str]:
+        return self.b.cursor.methods()
+
+    def candidate(self, t: Term) -> str | None:
+        """The attribute name when t is `self.A` for an attribute that is initialised by the constructor or added to by a method."""
+        if t[0] != "attr" or t[1] != SELF or t == self.b.store:
+            return None
+        a = t[2]
+        init = self.b.repo.lookup_method(self.b.la, "__init__")
+        if init is not None and any(e.data["obj"] == SELF and e.data["attr"] == a for e in self.b.sx.run(init).of("setattr")):
+            return a
+        for n in self.methods():
+            if self.additions(self.b.run(n), a)[0]:
+                return a
+        return None
+
+    def additions(self, r: Run, a: str):
+        """([(event, 'each' | 'one', term)], [(event, why)] removals / replacements, [(event, why)] not understood) on self.a."""
+        A = ("attr", SELF, a)
+        adds, removes, unknown = [], [], []
+        for e in r.events:
+            if e.kind == "call" and e.data["recv"] is not None and (e.data["recv"] == A or (mentions(e.data["recv"], A) and e.data["recv"][0] == "binop")):
+                meth, args = e.data["method"], e.data["args"]
+                if meth in self.ADD_ALL and len(args) == 1:
+                    adds.append((e, "each", args[0]))
+                elif meth in self.ADD_ONE and len(args) == 1:
+                    adds.append((e, "one", args[0]))
+                elif meth == "__iop__":
+                    pass  # judged at the assignment that follows
+                elif meth in self.REMOVERS:
+                    removes.append((e, f"`{_ev_text(e)}` removes names from it"))
+                else:
+                    unknown.append((e, f"the effect of `{_ev_text(e)}` on it is not known"))
+            elif e.kind == "setattr" and e.data["obj"] == SELF and e.data["attr"] == a:
+                v = e.data["value"]
+                if v[0] == "binop" and v[1] in ("BitOr", "Add") and (v[2] == A or mentions(v[2], A)):
+                    adds.append((e, "each", v[3]))
+                elif v[0] == "mcall" and v[2] == "union" and (v[1] == A or mentions(v[1], A)) and len(v[3]) == 1:
+                    adds.append((e, "each", v[3][0]))
+                elif not mentions(v, A):
+                    removes.append((e, f"`{_ev_text(e)}` replaces it"))
+                else:
+                    unknown.append((e, f"the effect of `{_ev_text(e)}` on it is not known"))
+            elif e.kind == "delitem" and e.data["obj"] == A:
+                removes.append((e, f"`{_ev_text(e)}` removes names from it"))
+        return adds, removes, unknown
+
+    def identifiers_of(self, v: Term):
+        """[('each', source) | ('one', term)] describing the identifiers of the filters of a stored definition, or None."""
+        b = self.b
+        ident = b.identifier_attr()
+        if v[0] == "phi":
+            x, y = self.identifiers_of(v[2]), self.identifiers_of(v[3])
+            return None if x is None or y is None else x + [i for i in y if i not in x]
+        core = strip_wrappers(v, ("list", "tuple"))
+        if core[0] in ("list", "tuple", "set"):
+            out = []
+            for x in core[1]:
+                if x[0] != "new":
+                    return None
+                out.append(("one", b.reduce(("attr", x, ident), {})))
+            return out
+        if core[0] == "comp" and core[1] != "dict" and len(core[3]) == 1 and not core[3][0][1] and core[2][0] == "new":
+            bv = ("bv", core[4])
+            if b.reduce(("attr", core[2], ident), {}) == bv:
+                return [("each", strip_wrappers(core[3][0][0], self.WRAPPERS))]
+        return None
+
+    def covers(self, need, adds) -> bool:
+        kind, t = need
+        for _e, k, x in adds:
+            x = strip_wrappers(x, self.WRAPPERS)
+            if x[0] == "comp" and x[1] != "dict" and len(x[3]) == 1 and not x[3][0][1] and x[2] == ("bv", x[4]):
+                x = strip_wrappers(x[3][0][0], self.WRAPPERS)  # `(m for m in xs)`
+            if kind == "each" and k == "each" and x == t:
+                return True
+            if kind == "one" and ((k == "one" and x == t) or (k == "each" and x[0] in ("list", "tuple", "set") and t in x[1])):
+                return True
+        return False
+
+    def prove(self, a: str) -> tuple[str, str, str]:
+        if a in self.cache:
+            return self.cache[a]
+        self.cache[a] = ("unknown", "the proof is recursive", "")
+        self.cache[a] = out = self._prove(a)
+        return out
+
+    def _prove(self, a: str) -> tuple[str, str, str]:
+        b = self.b
+        enc = Enc(b.canon)
+        unknown: tuple[str, str, str] | None = None
+        for name in self.methods():
+            r = b.run(name)
+            adds, removes, unk = self.additions(r, a)
+            writes = b.store_events(r)
+            if not writes and not adds and not removes and not unk:
+                continue
+            m = r.fi
+            union = {("param", n) for n in m.param_names[1:] if self._is_union(m, n)}
+            if removes:
+                return ("broken", f"{name}: {removes[0][1]}, while the stored definitions stay", removes[0][0].where)
+            blind = [f"call of {e.data['targets'][0].split('::')[-1]} not followed" for e in r.of("opaque")] + list(r.notes)
+            if blind or unk:
+                unknown = unknown or ("unknown", f"{name}: {unk[0][1] if unk else blind[0]}", (unk[0][0].where if unk else ""))
+                continue
+            order = {id(e): i for i, e in enumerate(r.events)}
+            for w in writes:
+                need = self.identifiers_of(w.data["value"])
+                if need is None:
+                    unknown = unknown or ("unknown", f"the identifiers of the definition `{show(w.data['value'])[:60]}` stored by {name} are not known", w.where)
+                    continue
+                if w.in_loop or any(e.in_loop for e, _k, _x in adds):
+                    unknown = unknown or ("unknown", f"{name} maintains it inside a loop that could not be summarised", w.where)
+                    continue
+                wpc = enc.pc(w.pc)
+                # additions that happen on every normally returning path through the write
+                rets = [enc.pc(pc) for pc, _v, _h in r.returns if satisfiable(f_and([enc.pc(pc), wpc]))]
+                sure = [(e, k, x) for e, k, x in adds if all(implies(f_and([rp, wpc]), enc.pc(e.pc)) for rp in rets)]
+                for nd in need:
+                    if self.covers(nd, sure):
+                        late = [e for e, _k, _x in sure if order[id(e)] > order[id(w)]]
+                        gap = [x for x in r.of("raise") if late and order[id(w)] < order[id(x)] < max(order[id(e)] for e in late) and satisfiable(f_and([enc.pc(x.pc), wpc]))]
+                        if gap and not self.covers(nd, [s_ for s_ in sure if order[id(s_[0])] < order[id(w)]]):
+                            return ("broken", f"{name} can raise (`{_ev_text(gap[0])[:50]}`) after the definition is stored and before its names are added", gap[0].where)
+                        continue
+                    raw = [(e, x) for e, k, x in adds if k == "each" and strip_wrappers(x, self.WRAPPERS) in union]
+                    part = [(e, x) for e, k, x in adds if any(y[0] == "slice" for y in subterms(x))]
+                    what = f"the identifiers of the filters built from `{show(nd[1])[:50]}`"
+                    if raw and nd[0] == "each":
+                        return ("broken", f"{name} stores one filter per element of the normalised list but adds `{show(raw[0][1])[:40]}`, the raw `str | list` argument, to `self.{a}` (`{_ev_text(raw[0][0])[:70]}`): for the string form its characters are recorded instead of the module name, which a later layer can then claim again", raw[0][0].where)
+                    if part:
+                        return ("broken", f"{name} adds only `{show(part[0][1])[:40]}` to `self.{a}`, not {what}", part[0][0].where)
+                    if not adds:
+                        return ("broken", f"{name} stores `{show(w.data['value'])[:60]}` in the layer mapping without adding {what} to `self.{a}`", w.where)
+                    if not sure:
+                        return ("broken", f"{name} adds to `self.{a}` only on some of the paths that store `{show(w.data['value'])[:50]}` (`{_ev_text(adds[0][0])[:60]}`)", adds[0][0].where)
+                    unknown = unknown or ("unknown", f"that what {name} adds to `self.{a}` (`{show(sure[0][2])[:50]}`) covers {what} is not established", sure[0][0].where)
+        return unknown or ("holds", "", "")
+
+    @staticmethod
+    def _is_union(m: FuncInfo, pname: str) -> bool:
+        import ast as _ast
+
+        for arg in [*m.node.args.posonlyargs, *m.node.args.args, *m.node.args.kwonlyargs]:
+            if arg.arg == pname and arg.annotation is not None:
+                txt = _ast.unparse(arg.annotation)
+                return "str" in txt and ("list" in txt.lower() or "Sequence" in txt or "Iterable" in txt)
+        return False
+
+
 def check_rejections(res: Result, r: Run, enc: Enc, accept, what: str, also=None) -> None:
     """Every call that returns normally satisfies the acceptance condition, and what is raised otherwise is a configuration error."""
     m = r.fi
@@ -726,6 +924,11 @@ def classify_dup(b: Builder, t: Term, pol: bool, p: Term, enc: Enc, pcf) -> tupl
         elif core[0] == "any" and len(core[1]) == 1:
             new, exist, member, tested = _membership(core[1][0])
             bv = ("bv", core[2])
+        elif core[0] == "any" and len(core[1]) == 2:
+            # nested loops over the stored definitions that raise on the first assigned name: `for fs in ..: for f in fs: if key(f) in NEW: raise`
+            (i1, f1), (i2, f2) = core[1]
+            bv = ("bv", core[2] + 1)
+            new, exist, member, tested = _membership((("comp", "gen", bv, ((i1, f1), (i2, ())), core[2]), f2))
         elif core[0] == "call" and core[1] == "any" and len(core[2]) == 1 and core[2][0][0] == "comp" and len(core[2][0][3]) == 1:
             c = core[2][0]
             it, ifs = c[3][0]
@@ -771,6 +974,8 @@ def classify_dup(b: Builder, t: Term, pol: bool, p: Term, enc: Enc, pcf) -> tupl
         return ("unknown", f"the duplicate check tests `{show(n)[:60]}`, which is not recognised as the whole normalised argument")
     if info[0] == "partial":
         return ("bad", f"the duplicate check does not cover the modules of all layers: {info[1]}")
+    if info[0] == "unknown":
+        return ("unknown", f"the duplicate check `{show(shape)[:100]}`: {info[1]}")
     _all, materialised, elt, fbv = info
     if swapped and tested is not None:
         # `[f for f in <stored> if key(f) in <new>]`: the looked-up expression belongs to the stored side
